@@ -60,12 +60,14 @@ CHECK = {
     "race": True,
     "technique": "generated concurrent workloads (rapid) executed under the Go race detector; every detector report is a counterexample",
     "rule": ("free-running scenarios (gates open) over generated UDP traffic: imports, tag add/edit/delete, mark updates, converter attach/detach, views "
-             "with searches, while six pollers (Status, KnownPcaps, ListTags, ListConverters, ListPcapOverIPEndpoints, Config) and an event listener "
+             "with searches, converter resets, add/remove of a PCAP-over-IP endpoint whose peer is a local listener that streams a few datagrams per connection "
+             "(so the endpoint reader, the packet handler and the imports it triggers run), while seven pollers (Status, KnownPcaps, ListTags, ListConverters, "
+             "ConverterStderr, ListPcapOverIPEndpoints, Config) and an event listener "
              "run concurrently; a quarter of the cases stays alive >1.1 s so the periodic tag-event worker ticks. Oracle: the Go race detector "
              "(halt_on_error=0); each report is reduced to the unordered pair of innermost pkappa2 functions of the two accesses, which is the "
              "finding's signature. Non-trivial: >=3 kinds of background job ran; distinct = distinct histories."),
     "level_text": "happens-before race detection on executed accesses under generated concurrent activity; no report means no race on the executed paths only",
-    "level_note": "schedules inside job bodies are the Go scheduler's; PCAP-over-IP endpoint readers are not exercised (they need a remote peer); reports whose both frames lie in harness code are ignored",
+    "level_note": "schedules inside job bodies are the Go scheduler's; the watch directory and the HTTP layer are not exercised; reports whose both frames lie in harness code are ignored",
     "assumptions": ["-race instruments the whole test binary; harness accesses to manager fields happen inside closures posted to the service loop"],
     "extra_builds": [{"pkg": "internal/verif/convbin", "out": "convbin"}],
     "env": {"GORACE": "halt_on_error=0 log_path=race"},
